@@ -282,6 +282,85 @@ def workers_family(ctx, exe, d, r, g, violations):
     return runs
 
 
+def keys_of(out):
+    """key -> count of a piped `rare histo` table."""
+    res = {}
+    for l in out.split("\n"):
+        if "Matched:" in l:
+            break
+        m = re.match(r"^(.*\S)\s+([0-9,]+)\s*$", l)
+        if m:
+            res[m.group(1)] = res.get(m.group(1), 0) + int(m.group(2).replace(",", ""))
+    return res
+
+
+def mixed_layout_family(ctx, exe, exe_race, d, r, violations):
+    """Dates of TWO formats behind one remembered layout (`ts {0}:{buckettime {1} hour}`, W workers): here the answers depend on
+    the schedule by design (theorem time_cache_two_workers_counterexample), so no equality is claimed - only what holds for
+    every schedule (theorem time_cache_workers_any_schedule): every line is counted once, and every answer is the date parsed
+    by the layout of ONE of the formats present (or <PARSE-ERROR>), never anything else; no race report, no crash.  The
+    allowed answers come from the real code run sequentially with the layout of format A (resp. B) remembered first."""
+    n = 2 if ctx["tier"] == "quick" else 20
+    env = {k: v for k, v in os.environ.items() if k != "RARE_FUNC_FILES"}
+    env["GORACE"] = "halt_on_error=1 exitcode=66 atexit_sleep_ms=0"
+    fmts = ["2020-01-%02dT%02d:00:00Z", "%02d/Jan/2020:%02d:10:11", "2020/01/%02d", "1/%d/2020", "2020-01-%02dT%02d:03:04"]
+    runs = 0
+    for ci in range(n):
+        if len(violations) >= 3:
+            break
+        fa = r.pick(fmts)
+        fb = r.pick([f for f in fmts if f != fa])
+        nlines = r.pick([200, 1500])
+        lines = []
+        for _ in range(nlines):
+            f = r.pick([fa, fb])
+            args = (1 + r.intn(28), r.intn(24))
+            lines.append("%s %s" % (r.pick(["disk", "net", "cpu"]), f % args[:f.count("%")]))
+        inp = os.path.join(d, "m%d.log" % ci)
+        with open(inp, "w") as f:
+            f.write("\n".join(lines) + "\n")
+        path = os.path.join(d, "m%d.funcs" % ci)
+        with open(path, "w") as f:
+            f.write("# one layout cell for all call sites\nts {0}:{buckettime {1} hour}\n")
+        tail = ["-n", "100000", "-m", "(\\w+) (\\S+)", "-e", "k:{ts {1} {2}}:k"]
+        allowed = {}
+        for fx in (fa, fb):
+            seq = os.path.join(d, "m%d_seq.log" % ci)
+            with open(seq, "w") as f:
+                f.write("prime " + fx % (1, 0)[:fx.count("%")] + "\n" + "\n".join(lines) + "\n")
+            rs = rare(exe, ["--funcs", path, "histo", "--workers", "1", "--batch", "100000"] + tail + [seq], env, timeout=120)
+            runs += 1
+            for k in keys_of(rs[1]):
+                allowed[k] = True
+        W, B = r.pick([2, 4, 8, 16]), r.pick([1, 3, 50])
+        cmd = ["--funcs", path, "histo", "--workers", str(W), "--batch", str(B)] + tail + [inp]
+        rc = rare(exe_race, cmd, env, timeout=180)
+        runs += 1
+        got = keys_of(rc[1])
+        bad = None
+        if rc[0] == "timeout":
+            bad = "the run did not return"
+        elif "DATA RACE" in rc[2] or rc[0] == 66:
+            bad = "the race detector reports a data race while %d workers share one layout cell" % W
+        elif rc[0] != 0 or "panic:" in rc[2]:
+            bad = "the real CLI failed"
+        elif sum(got.values()) != nlines:
+            bad = "%d lines went in, %d were counted" % (nlines, sum(got.values()))
+        elif [k for k in got if k not in allowed]:
+            bad = "an answer that no layout present in the input explains: " + repr([k for k in got if k not in allowed][:3])
+        elif len(allowed) < 4:
+            bad = "the sequential runs produced almost no keys (the family is not exercising the layout cell)"
+        if bad:
+            i = rc[2].find("WARNING: DATA RACE")
+            violations.append({"key": "cli-workers-mixed-layouts", "kind": "cli-workers", "label": "mixed-%d" % ci, "formats": [fa, fb], "input": inp,
+                               "cmd": "GORACE=halt_on_error=1 " + sh([exe_race] + cmd), "implementation": "rc=%s keys=%r" % (rc[0], sorted(got)[:6]),
+                               "model": "every answer among %r…" % (sorted(allowed)[:6],), "stderr": (rc[2][i:i + 2500] if i >= 0 else rc[2][-600:]),
+                               "explanation": bad + " (property C10, concurrency clause; theorem time_cache_workers_any_schedule)"})
+        else:
+            os.remove(inp)
+    return runs
+
+
 def run(ctx):
     exe = build_rare(ctx)
     d = os.path.join(ctx["work"], "clifuncs")
@@ -402,6 +481,8 @@ def run(ctx):
         keys = ["k=" + r.pick(["v", "12", ""])] if r.intn(2) else []
         one(sw, order, defs, call, data, keys, fam, noopt=r.intn(4) == 0, via_env=r.intn(5) == 0, split=r.intn(4) == 0, label="gen-%d" % ci)
     wruns = workers_family(ctx, exe, d, r, g, violations) if len(violations) < 3 else 0
+    if len(violations) < 3:
+        wruns += mixed_layout_family(ctx, exe, build_rare(ctx, race=True), d, r, violations)
     runs += wruns
     if not violations:
         shutil.rmtree(d, ignore_errors=True)
